@@ -206,6 +206,45 @@ func checkC10(r *mon.Run) {
 				return
 			}
 			r.Count("buffer_reuse_checks", 1)
+			// the caller edits the decoded value (another signature of the same length, another
+			// type GUID, another second) and encodes it: decoding that must give the edited value
+			for _, apiName := range []string{"Unmarshal", "Read"} {
+				var v signature.EFIVariableAuthentication2
+				if apiName == "Unmarshal" {
+					if v.Unmarshal(bytes.NewBuffer(append([]byte(nil), j.buf...))) != nil {
+						continue
+					}
+				} else {
+					pv, e := signature.ReadEFIVariableAuthencation2(bytes.NewReader(j.buf))
+					if e != nil {
+						continue
+					}
+					v = *pv
+				}
+				newData := make([]byte, len(v.AuthInfo.CertData))
+				for k := range newData {
+					newData[k] = byte(0xC0 + k%61)
+				}
+				newGUID := toLib(refguid.FromWire([]byte{1, 2, 3, 4, 5, 6, 7, 8, 9, 10, 11, 12, 13, 14, 15, 16}))
+				v.AuthInfo.CertData = newData
+				v.AuthInfo.CertType = newGUID
+				v.Time.Second = (v.Time.Second + 1) % 60
+				var eb bytes.Buffer
+				var back *signature.EFIVariableAuthentication2
+				var berr error
+				if p := tryP(func() {
+					v.Marshal(&eb)
+					back, berr = signature.ReadEFIVariableAuthencation2(bytes.NewReader(eb.Bytes()))
+				}); p != "" || berr != nil || back == nil {
+					r.Violation("C10|edited-value|rejected", fmt.Sprintf("a decoded (%s) and then edited descriptor does not encode to something decodable: %v %s", apiName, berr, p), replay)
+					return
+				}
+				if !bytes.Equal(back.AuthInfo.CertData, newData) || back.AuthInfo.CertType != newGUID || back.Time.Second != v.Time.Second {
+					r.Violation("C10|edited-value|encoding-carries-old-fields", fmt.Sprintf("decoded with %s, certificate data / type GUID / second replaced, encoded and decoded again: the edits are not there (data equal: %v, GUID equal: %v)", apiName, bytes.Equal(back.AuthInfo.CertData, newData), back.AuthInfo.CertType == newGUID), replay)
+					return
+				}
+				r.Count("edited_values_roundtripped", 1)
+			}
 		}
 		// (4) the WIN_CERTIFICATE_UEFI_GUID part on its own
 		wb := j.buf[16:]
